@@ -25,8 +25,8 @@ LEVEL_TEXT = ('Proved in Lean on the interpreter model: evaluating a Translate n
               'predicts the ordered call log and the output for three translation functions, and the model is tied to the code by '
               'correspondence of call logs.')
 LEVEL_NOTE = ('Trusted: Lean kernel; the interpreter model. Not in the model (oracle only): the offering of non-string inserted values to the '
-              'translation function (the model does not log those calls), implicit translation of interpolated text, settings across macro '
-              'calls. Known finding D-10a: settings made inside an element that fails under tal:on-error stay in force. D-14a (mapping '
+              'translation function (the model does not log those calls), settings across macro calls (implicit translation of interpolated text is '
+              'in the model since round 6). Known finding D-10a: settings made inside an element that fails under tal:on-error stay in force. D-14a (mapping '
               'order) was repaired in /repo (fix: aef6a17).')
 RULE = ('templates from an i18n grammar: translate with/without explicit id, nested translate, 0..3 named children under condition / repeat / '
         'omit-tag / content, domain/context/target on any ancestor, i18n:attributes with and without ids, implicit_i18n_translate / '
